@@ -118,8 +118,11 @@ TiltOf(mm, i) == Micro(i.f[ColOf(mm.cols, TiltKey)])
 \* sort_values(by = "TiltAngle"): ascending; the property's inputs have pairwise different tilt angles
 SortImgs(mm) ==
     LET n == Len(mm.imgs)
-        pos(k) == 1 + Cardinality({ x \in 1..n : TiltOf(mm, mm.imgs[x]) < TiltOf(mm, mm.imgs[k]) })
-    IN  [p \in 1..n |-> mm.imgs[CHOOSE k \in 1..n : pos(k) = p]]
+        tc == ColOf(mm.cols, TiltKey)
+        \* (\o <<>> makes TLC build the tuples once instead of re-evaluating the lambda at every application)
+        tl == [k \in 1..n |-> Micro(mm.imgs[k].f[tc])] \o <<>>
+        rank == [k \in 1..n |-> 1 + Cardinality({ x \in 1..n : tl[x] < tl[k] })] \o <<>>
+    IN  [p \in 1..n |-> mm.imgs[CHOOSE k \in 1..n : rank[k] = p]]
 
 SortByTilt(mm, resetZ) ==
     LET s == SortImgs(mm)
@@ -130,10 +133,9 @@ DistinctTilts(mm) == \A a, b \in DOMAIN mm.imgs : a # b => TiltOf(mm, mm.imgs[a]
 \* remove_images(indices, kept_only): indices are 0-based positions among the kept images (kept_only) or among all
 \* images, in the current order
 Candidates(mm, keptOnly) == IF keptOnly THEN { k \in DOMAIN mm.imgs : ~mm.imgs[k].rm } ELSE DOMAIN mm.imgs
-NthOf(S, p) == CHOOSE k \in S : Cardinality({ x \in S : x < k }) = p           \* p = 0, 1, ...
 RemoveImages(mm, P, keptOnly) ==
     LET C == Candidates(mm, keptOnly)
-        hit == { NthOf(C, p) : p \in P }
+        hit == { k \in C : Cardinality({ x \in C : x < k }) \in P }       \* the p-th candidate, p = 0, 1, ...
     IN  [mm EXCEPT !.imgs = [k \in DOMAIN mm.imgs |-> IF k \in hit THEN [mm.imgs[k] EXCEPT !.rm = TRUE] ELSE mm.imgs[k]]]
 
 \* keep_images(labels): by index label
@@ -294,13 +296,14 @@ Defocus(rows) == [k \in DOMAIN rows |-> [d1 |-> rows[k].u, d2 |-> rows[k].v, mea
                                          ast |-> rows[k].ang, ps |-> rows[k].ps]]
 
 \* STOPGAP wedge list: for every tomogram in order, one row per tilt pairing the i-th tilt, defocus, exposure
-\* T : Seq([id, tilts, mean2 (sequence or <<>>), dose (sequence or <<>>), dim, zshift]); consts = [px, voltage, amp, cs]
+\* T : Seq([id, tilts, ctf (defocus rows or <<>>), dose (sequence or <<>>), dim, zshift]); consts = [px, voltage, amp, cs]
 RECURSIVE Concat(_)
 Concat(ss) == IF ss = <<>> THEN <<>> ELSE ss[1] \o Concat(Tail(ss))
 WedgeRowsOf(t, consts) ==
     LET tl == TltLoad(t.tilts, TRUE)
+        df == Defocus(t.ctf)
     IN  [i \in DOMAIN tl |-> [tomo |-> t.id, px |-> consts.px, dim |-> t.dim, zshift |-> t.zshift, tilt |-> tl[i],
-                              mean2 |-> IF t.mean2 = <<>> THEN -1 ELSE t.mean2[i],
+                              mean2 |-> IF t.ctf = <<>> THEN -1 ELSE df[i].mean2,
                               dose |-> IF t.dose = <<>> THEN -1 ELSE t.dose[i],
                               voltage |-> consts.voltage, amp |-> consts.amp, cs |-> consts.cs]]
 WedgeSg(T, consts) == Concat([k \in DOMAIN T |-> WedgeRowsOf(T[k], consts)])
